@@ -25,10 +25,10 @@ import (
 )
 
 type Task struct {
-	ID      int                `json:"id"`
-	Hist    *clirig.HistCase   `json:"hist,omitempty"`
-	Reach   *clirig.ReachCase  `json:"reach,omitempty"`
-	WantKey bool               `json:"want_key,omitempty"`
+	ID      int               `json:"id"`
+	Hist    *clirig.HistCase  `json:"hist,omitempty"`
+	Reach   *clirig.ReachCase `json:"reach,omitempty"`
+	WantKey bool              `json:"want_key,omitempty"`
 }
 
 type Result struct {
